@@ -334,7 +334,8 @@ func (g *Gen) oneBlock(active bool) bool {
 			return false
 		}
 	}
-	if active && g.useExpCont && g.faults["expcont"] && !g.didExpCont && g.block > g.nBlocks/3 && g.chance(0.15) {
+	// (an export is worth more while several contexts are alive)
+	if active && g.useExpCont && g.faults["expcont"] && !g.didExpCont && g.block > g.nBlocks/3 && g.chance(map[bool]float64{false: 0.1, true: 0.45}[len(g.x.cur.Ctx) >= 2]) {
 		g.didExpCont = true
 		if !g.emit(Op{K: "expcont"}) {
 			return false
